@@ -51,8 +51,8 @@ static std::vector<long> parseSched(std::istringstream& ps) {
 }
 
 static void runCase(const std::string& mode, int n, int arg, std::vector<long> sched) {
-  sched.resize(std::max<size_t>(sched.size(), 4000000), 0);
-  vsp::PoolSched S(sched, 3000000);
+  sched.resize(std::max<size_t>(sched.size(), 300000), 0);
+  vsp::PoolSched S(sched, 250000);
   S.keepPoints = {"ws.", "ew."};
   S.noPark = {"pool.pop.ring", "pool.pop.central", "pool.pop.steal", "pool.wr.sub", "pool.wr.add", "pool.ring.push", "pool.ring.push.end",
               "pool.enq.central", "pool.load.numThreads", "pool.load.numRings", "pool.inline", "pool.steal.push",
